@@ -434,8 +434,103 @@ def _const_operand_value(F, fn, op, defs):
         if rv[0] == "cast" and rv[1] == "IntToInt":
             op = rv[2]
             continue
+        if rv[0] == "un" and rv[1] == "Neg":
+            v = _const_operand_value(F, fn, rv[2], defs)
+            return None if v is None else -v
+        if rv[0] == "bin" and rv[1].replace("WithOverflow", "") in ("Add", "Sub", "Mul", "Shl") and ("|t:0" in pl or "WithOverflow" not in rv[1]):
+            a, b = _const_operand_value(F, fn, rv[2], defs), _const_operand_value(F, fn, rv[3], defs)
+            if a is None or b is None:
+                return None
+            o_ = rv[1].replace("WithOverflow", "")
+            return a + b if o_ == "Add" else a - b if o_ == "Sub" else a * b if o_ == "Mul" else (a << b if 0 <= b < 256 else None)
         return None
     return None
+
+
+def _range_gate(F, fn, defs, s):
+    """switch block `s` tests `<const range>.contains(&q)`: -> (lo, hi, operand of q) with None for an open end, else None"""
+    t = fn["bbs"][s]["t"]
+    if t[1] != "switch":
+        return None
+    cp = t[2][1].split("|")[0]
+    ds = [d for d in defs.get(cp, []) if d[0] == "call"]
+    if len(ds) != 1:
+        return None
+    ct = ds[0][1]
+    to = ct[2].get("to") or ""
+    if not (to.startswith("std::ops::Range") and to.endswith("::contains")) or len(ct[3]) != 2:
+        return None
+
+    def deref(op):
+        # follow `&x` / copies back to the local that holds the value
+        for _ in range(6):
+            base = op[1].split("|")[0] if op[0] in ("m", "c") else None
+            if base is None:
+                return None
+            dd = defs.get(base, [])
+            if len(dd) != 1:
+                return base
+            if dd[0][0] == "stmt" and dd[0][1][0] == "ref":
+                op = ["c", dd[0][1][2]]
+                continue
+            if dd[0][0] == "stmt" and dd[0][1][0] == "use" and dd[0][1][1][0] in ("m", "c"):
+                op = dd[0][1][1]
+                continue
+            return base
+        return None
+    rl = deref(ct[3][0])
+    if rl is None:
+        return None
+    dd = defs.get(rl, [])
+    if len(dd) != 1:
+        return None
+    lo = hi = None
+    # a constant range is usually promoted: `&(a..=b)` lives in <fn>::promoted[i], whose MIR builds it
+    if dd[0][0] == "stmt" and dd[0][1][0] == "use" and dd[0][1][1][0] == "k" and "::promoted[" in str(dd[0][1][1][1]):
+        pm = getattr(F, "promoted", {}).get(str(dd[0][1][1][1]).split("::", 0)[0])
+        if pm is None:
+            for k_, v_ in getattr(F, "promoted", {}).items():
+                if k_.endswith(str(dd[0][1][1][1])) or str(dd[0][1][1][1]).endswith(k_):
+                    pm = v_
+        if pm is None:
+            return None
+        pdefs = {}
+        for bj, bb in enumerate(pm["bbs"]):
+            for st in bb["st"]:
+                if st[1] == "=":
+                    pdefs.setdefault(st[2].split("|")[0], []).append(("stmt", st[3], bj))
+            t_ = bb["t"]
+            if t_[1] == "call":
+                pdefs.setdefault(t_[4].split("|")[0], []).append(("call", t_, bj))
+        cand = [d for ds_ in pdefs.values() for d in ds_ if (d[0] == "call" and "RangeInclusive" in (d[1][2].get("to") or "")) or (d[0] == "stmt" and d[1][0] == "agg" and str(d[1][2]).startswith("std::ops::Range"))]
+        if len(cand) != 1:
+            return None
+        dd = cand
+        fn = pm
+        defs = pdefs
+    if dd[0][0] == "call" and "RangeInclusive" in (dd[0][1][2].get("to") or "") and (dd[0][1][2].get("to") or "").endswith("::new"):
+        a = dd[0][1][3]
+        lo, hi = _const_operand_value(F, fn, a[0], defs), _const_operand_value(F, fn, a[1], defs)
+        if lo is None or hi is None:
+            return None
+    elif dd[0][0] == "stmt" and dd[0][1][0] == "agg" and str(dd[0][1][2]).startswith("std::ops::Range"):
+        kind = str(dd[0][1][2]).rsplit("::", 1)[-1]
+        vals = [_const_operand_value(F, fn, o, defs) for o in dd[0][1][4]]
+        if any(v is None for v in vals):
+            return None
+        if kind == "Range" and len(vals) == 2:
+            lo, hi = vals[0], vals[1] - 1
+        elif kind == "RangeFrom" and len(vals) == 1:
+            lo = vals[0]
+        elif kind == "RangeTo" and len(vals) == 1:
+            hi = vals[0] - 1
+        elif kind == "RangeToInclusive" and len(vals) == 1:
+            hi = vals[0]
+        else:
+            return None
+    else:
+        return None
+    return lo, hi, ct[3][1]
 
 
 def gate_limit(F, fid, site_bb):
@@ -460,6 +555,14 @@ def gate_limit(F, fid, site_bb):
     for s in dominators(fn, site_bb):
         t = fn["bbs"][s]["t"]
         if t[1] != "switch":
+            continue
+        rg = _range_gate(F, fn, defs, s)
+        if rg is not None:
+            f_ = [tg for v, tg in t[3] if v == "0"]
+            if mp.dominated_by(fn, site_bb, t[4]) and not (f_ and mp.dominated_by(fn, site_bb, f_[0]) and f_[0] != t[4]) and rg[1] is not None:
+                if best is None or rg[1] < best:
+                    best = rg[1]
+                    best_q = org.of_operand(rg[2])
             continue
         cp = t[2][1].split("|")[0]
         ds = [d for d in defs.get(cp, []) if d[0] == "stmt" and d[1][0] == "bin"]
@@ -551,11 +654,21 @@ def gate_min(F, fid, site_bb):
         for st in bb["st"]:
             if st[1] == "=":
                 defs.setdefault(st[2].split("|")[0], []).append(("stmt", st[3], bj))
+        t_ = bb["t"]
+        if t_[1] == "call":
+            defs.setdefault(t_[4].split("|")[0], []).append(("call", t_, bj))
     best = None
     why = "no dominating comparison with a constant"
     for s_ in dominators(fn, site_bb):
         t = fn["bbs"][s_]["t"]
         if t[1] != "switch":
+            continue
+        rg = _range_gate(F, fn, defs, s_)
+        if rg is not None:
+            f_ = [tg for v, tg in t[3] if v == "0"]
+            if mp.dominated_by(fn, site_bb, t[4]) and not (f_ and mp.dominated_by(fn, site_bb, f_[0]) and f_[0] != t[4]) and rg[0] is not None:
+                if best is None or rg[0] > best:
+                    best = rg[0]
             continue
         cp = t[2][1].split("|")[0]
         ds = [d for d in defs.get(cp, []) if d[0] == "stmt" and d[1][0] == "bin"]
